@@ -16,4 +16,9 @@ PROPERTY = {
 
 
 def check(run):
+    from checks.main import reflection_bounded, defaults_bounded
     run.verify_functions(TARGETS)
+    # remove_attributes_with_default_values / defaulted_attributes depend on
+    # inspect and on arbitrary default objects: bounded stand-ins
+    reflection_bounded(run)
+    defaults_bounded(run)
